@@ -25,7 +25,7 @@ MODULES = ['proof_generation/proof.py', 'proof_generation/pattern.py', 'proof_ge
            'proof_generation/interpreter.py', 'proof_generation/instruction.py', 'proof_generation/claim.py', 'proof_generation/proved.py',
            'proof_generation/metamath/translate.py', 'proof_generation/metamath/converter/converter.py', 'proof_generation/metamath/converter/scope.py',
            'proof_generation/metamath/converter/representation.py', 'proof_generation/metamath/converter/vars.py', 'proof_generation/metamath/ast.py',
-           'proof_generation/proofs/propositional.py', 'proof_generation/tautology.py']
+           'proof_generation/metamath/parser.py', 'proof_generation/proofs/propositional.py', 'proof_generation/tautology.py']
 SET_CTORS = {'set', 'frozenset'}
 SET_METHODS = {'union', 'intersection', 'difference', 'symmetric_difference', 'copy'}
 ORDER_FREE_CALLS = {'set', 'frozenset', 'any', 'all', 'sum', 'len', 'min', 'max', 'bool'}
@@ -227,6 +227,12 @@ def scan(root):
                 mutable = isinstance(val, (ast.Dict, ast.List, ast.Set, ast.ListComp, ast.DictComp, ast.SetComp)) or \
                     (isinstance(val, ast.Call) and isinstance(val.func, ast.Name) and val.func.id in ('dict', 'list', 'set', 'defaultdict', 'OrderedDict', 'Counter'))
                 if not mutable:
+                    # an INSTANCE of a class of these modules whose methods write to self: an object with state, shared by every run in the process
+                    cn = val.func.id if isinstance(val, ast.Call) and isinstance(val.func, ast.Name) else None
+                    why = stateful_class(facts, cn) if cn else None
+                    if why:
+                        obs.append((f'{f.path}:{owner}{name}:line {st.lineno}:state', False,
+                                    f'instance of {cn} bound at {"class" if owner else "module"} level, and {cn} keeps state between calls ({why}): it outlives one serialisation / translation'))
                     continue
                 written = mutated_somewhere(facts, name, owner != '')
                 obs.append((f'{f.path}:{owner}{name}:line {st.lineno}:state', not written,
@@ -244,6 +250,43 @@ def scan(root):
                     else:
                         obs.append((f'{f.path}:{node.name}:line {line}:order', ok, f'{what}: {why}'))
     return obs, nfun
+
+
+MUTATORS = ('append', 'add', 'update', 'extend', 'setdefault', 'pop', 'clear', 'insert', 'remove', 'discard', 'popitem', 'appendleft')
+
+
+def stateful_class(facts, cname, seen=()):
+    """-> description of a method (other than the initialisers) of class `cname` (or of a base class defined in these modules) that writes to self, else None"""
+    if cname in seen:
+        return None
+    for f in facts:
+        for c in ast.walk(f.tree):
+            if not (isinstance(c, ast.ClassDef) and c.name == cname):
+                continue
+            for m in c.body:
+                if not isinstance(m, ast.FunctionDef) or m.name in ('__init__', '__post_init__', '__new__') or not m.args.args:
+                    continue
+                me = m.args.args[0].arg
+
+                def on_self(t):
+                    return isinstance(t, ast.Attribute) and isinstance(t.value, ast.Name) and t.value.id == me
+                for n in ast.walk(m):
+                    tg = []
+                    if isinstance(n, ast.Assign):
+                        tg = n.targets
+                    elif isinstance(n, (ast.AugAssign, ast.AnnAssign)):
+                        tg = [n.target]
+                    for t in tg:
+                        if on_self(t) or (isinstance(t, ast.Subscript) and on_self(t.value)):
+                            return f'{cname}.{m.name} line {n.lineno} assigns {ast.unparse(t)}'
+                    if isinstance(n, ast.Call) and isinstance(n.func, ast.Attribute) and n.func.attr in MUTATORS and on_self(n.func.value):
+                        return f'{cname}.{m.name} line {n.lineno} calls {ast.unparse(n.func)}()'
+            for b in c.bases:
+                if isinstance(b, ast.Name):
+                    r = stateful_class(facts, b.id, seen + (cname,))
+                    if r:
+                        return r
+    return None
 
 
 def mutated_somewhere(facts, name, is_attr):
@@ -370,7 +413,18 @@ def main(tmp, order, mm_files):
         from proof_generation.metamath.converter.converter import MetamathConverter
         from proof_generation.metamath.translate import convert_to_implication, exec_proof
         from proof_generation.stateful_interpreter import StatefulInterpreter
+        if order == 'rev':
+            mm_files = list(reversed(mm_files))
         for f in mm_files:
+            if order == 'rev':
+                # an unrelated database loaded EARLIER in the same process, declaring every math token of f as a variable: nothing of it may survive
+                toks = sorted({t for t in open(f).read().split() if not t.startswith('$') and t not in ('(', ')')})
+                pz = os.path.join(tmp, 'earlier.mm')
+                open(pz, 'w').write('$c #Pattern |- $.\n$v ' + ' '.join(toks) + ' $.\n')
+                try:
+                    load_database(pz, include_proof=True)
+                except BaseException:
+                    pass
             try:
                 db = load_database(f, include_proof=True)
                 conv = MetamathConverter(db)
